@@ -4,7 +4,9 @@ Four bounded-exhaustive parts, all against the real ``compile_filter`` / ``*Mess
 
 (a) boolean structure.  Every expression tree of depth <= 2 over {!, &&, ||} on the leaf set ``A_LEAVES`` (rendered fully
     parenthesised), plus every unparenthesised chain ``t1 op t2 op ... tn`` (optionally negated terms), x every entry of
-    ``ENTRY_IDS_A`` x short_circuit {True, False}.
+    ``ENTRY_IDS_A`` (LLUDP: every field type in one block, the same frozen, repeated blocks with mixed types + empty block list +
+    acks/extra, other name + message meta, subfield-serialized var, wire-decoded zerocoded message with str / JankStringyBytes
+    fields, entry with region+session; two EQ entries, two HTTP entries) x short_circuit {True, False}.
       shape                 the compiled node tree has the generated shape (chains: the grammar's documented reading --
                             ``expression := term (op expression)?`` i.e. right-nested, && and || of equal precedence, ``!``
                             binds to the following term only)
@@ -21,7 +23,10 @@ Four bounded-exhaustive parts, all against the real ``compile_filter`` / ``*Mess
       leaf-inapplicable-raises   match() raised although the reference says "not applicable to this field's type => False"
       leaf-raises                match() raised where every selected field is comparable
       match-result-unusable      match() returned a MatchResult whose truth value cannot be taken (bool() raises)
-      leaf-value                 boolean differs from the reference
+      leaf-value-spurious        match is True although no selected field satisfies the comparison (the statement's "only if")
+      leaf-value-missed          match is False although a selected field satisfies it ("filters mean what they say")
+      leaf-inapplicable-true     match is True by a comparison that is not applicable to the (single) selected field's type
+      compile                    a filter built from the grammar's own operator list does not compile
       subfield-undecodable-raises  4-part selector on a variable whose payload the subfield serializer cannot decode raised
       logger-filter-error        the same through FilteringMessageLogger: add_log_entry logged an exception / set_filter raised
       logger-leaf-value          add_log_entry's verdict / the view differs from the reference
@@ -570,7 +575,7 @@ def check_leaf(part, node, text: str, selector, op, lit: Optional[Lit], eid: str
                                    f"{text!r} on {eid} (short_circuit={sc}) gave True; {opname} {lit.text if lit else ''} is not applicable to a "
                                    f"{first[1]} field and is simply false for it")
                 else:
-                    part.violation("leaf-value", f"_val_matches:{opname}:{where}", witness,
+                    part.violation("leaf-value-spurious" if b else "leaf-value-missed", f"_val_matches:{opname}:{where}", witness,
                                    f"{text!r} on {eid} (short_circuit={sc}) gave {b}, reference {_rng(lo, hi)} over {nsel} selected field(s) {kinds[:6]}")
     if outs[0][0] == "ok" and outs[1][0] == "ok" and outs[0][1] != outs[1][1]:
         part.violation("short-circuit-disagree", f"{spec.kind}.matches:{shape}", witness, f"{text!r} on {eid}: short-circuit {outs[0][1]}, full {outs[1][1]}")
